@@ -656,7 +656,14 @@ class _Exporter:
             "LessOrEqual": "<=",
         }
         sindent = _SINGLE_INDENT * indent
-        if self.use_operators and node.op_type in ops:
+        if (
+            self.use_operators
+            and node.op_type in ops
+            and node.domain in {"", "ai.onnx"}  # an operator of another domain is not the python operator
+            and len(node.input) == 2
+            and all(x != "" for x in node.input)
+            and len(node.attribute) == 0
+        ):
 
             def operand(x):
                 text = self._translate_onnx_var_ref(x)
